@@ -40,8 +40,9 @@ def generate(tape, tier="quick"):
     if tape.chance(1, 4):
         from ..grids import gen_structured
         src["grid"] = gen_structured(tape, max_dim=2, max_len=3)
+    cu = tape.choice([None, None, "m", "km", "mm"]) if src["units"] in ("m", "km") else None
     return {"engine": "E3", "src": src,
-            "consumers": [{"chain": chain, "units": None}], "events": events}
+            "consumers": [{"chain": chain, "units": cu}], "events": events}
 
 
 def execute(sc):
